@@ -81,6 +81,7 @@ type interpreter struct {
 	memoHits     int
 	crossMemo    map[string]value
 	auxRegistry  map[string]auxEntry
+	sideCache    map[string]bool
 	heapFreeCache map[*ssa.Function]bool
 	zeroStubs    map[string]bool
 }
